@@ -153,6 +153,11 @@ events_run_internal(void)
 		memcpy(&tv2, &tv_zero, sizeof(struct timeval));
 		if (events_network_select(&tv2, &interrupt_requested))
 			goto err0;
+
+		/* Interrupt loop if requested (e.g., during the select). */
+		if (interrupt_requested)
+			goto done;
+
 		if ((r = events_network_get()) != NULL) {
 			if ((rc = doevent(r)) != 0)
 				goto done;
